@@ -36,7 +36,7 @@ def run_groups(V, groups, wd, per_batch=8, variant="rel", timeout=300, workers=1
                 lines += member_lines(m, bwd, "g%d_m%d" % (gi, mi))
         tp, rc, err = kv.run_kvdrive("\n".join(lines) + "\n", bwd, "t", variant=variant, timeout=timeout, env=env)
         try:
-            res = kv.run_tlc("RelateTrace", "RelateTrace.cfg", bwd, trace=tp, cont=True, timeout=900, heap="3g")
+            res = kv.run_tlc("RelateTrace", "RelateTrace.cfg", bwd, trace=tp, timeout=900, heap="3g")
         except kv.Broken as e:
             return bi, rc, err, None, str(e)
         return bi, rc, err, res, None
